@@ -127,7 +127,7 @@ SUB_TEMPLATES = [
 ]
 
 
-CTX_OPERANDS = ["RsV", "RssV", "RsN", "NsN", "PsV", "PsN", "CsV", "CssV", "MuV", "RxV", "RxxV", "RdV", "RddV", "PdV",
+CTX_OPERANDS = ["RsV", "RssV", "RsN", "NsN", "PsV", "PsN", "CsV", "CssV", "MuV", "RxV", "RxxV", "ReV", "RddV", "PeV",
                 "siV", "uiV", "SiV", "UiV", "riV"]
 CTX_LITERALS = ["-4", "2 - 6", "2 * 6", "2 + 6", "~5", "-(3)", "-1LL", "0xffffffffU", "3 - 2 - 4", "-(2 * 3)", "0x10",
                 "(2 < 3)", "4 - 1 * 6"]
@@ -153,8 +153,8 @@ def context_templates():
     for tok in toks:
         o = classify(tok)
         for c in READ_CONTEXTS:
-            if tok.startswith(("RdV", "RddV", "PdV")) and "RdV" in c.replace("@", ""):
-                continue
+            if tok in ("ReV", "RddV", "PeV"):
+                continue        # pure destinations are only written
             out.append(c.replace("@", tok))
         writable = o is not None and o.kind != "imm" and getattr(o, "access", "r") in ("w", "rw") and not tok.endswith("_NEW") \
             or tok in c07.EXPLICIT or (tok.startswith("HEX_REG_ALIAS_") and not tok.endswith("_NEW"))
@@ -170,7 +170,7 @@ def template_texts(which):
     t = [x for _, x in c07.spelling_cells()] + list(c15.TEMPLATES)
     if which != "C10":
         t += list(c09.DEAD_ARM_TEMPLATES)
-    if which == "C11":
+    if which in ("C11", "C10", "C12"):
         t += context_templates()
     return t
 
